@@ -1,6 +1,8 @@
 (* C10 — property theorems only. Each is closed by `exact <lemma>` and followed by Print Assumptions. *)
-From Coq Require Import ZArith List Ascii String QArith Qabs.
-From GeosV.C10 Require Import NumDefs NumProofs WktDefs WktProofs JsonDefs.
+From Coq Require Import ZArith List Ascii String QArith Qabs Reals.
+From Flocq Require Import Core.
+
+From GeosV.C10 Require Import NumDefs NumProofs ShortestProofs RoundInterval ShortestRoundtrip WktDefs WktProofs JsonDefs.
 Import ListNotations.
 Local Open Scope Z_scope.
 
@@ -13,9 +15,21 @@ Theorem C10_fixed_layout_value : forall m e sign prec, 1 <= m < 10 ^ 17 -> 0 <= 
     parse_number (to_chars_fixed m e sign prec) = Some (NVdec (sign && negb (N =? 0)) N E) /\ 0 <= N /\
     (0 <= e \/ - e <= prec -> (dval N E == dval m e)%Q) /\
     (e < 0 -> prec < - e -> (dval N E == dval (round_half_even m (10 ^ (- e - prec))) (- prec))%Q) /\
-    (Qabs (dval N E - dval m e) <= (1 # 2) * (10 # 1) ^ (- prec))%Q.
+    (Qabs (dval N E - dval m e) <= (1 # 2) * (10 # 1) ^ (- prec))%Q /\
+    Z.min e 0 <= E <= 0 /\ (0 <= e \/ - e <= prec -> same_val N E m e).
 Proof. exact fixed_layout_value. Qed.
 Print Assumptions C10_fixed_layout_value.
+
+(* ... and the same for the exponent notation (geos_d2sexp_buffered_n): mantissa digits in fixed layout, then e, sign, exponent *)
+Theorem C10_exp_layout_value : forall k g sign prec, 1 <= k < 10 ^ 17 -> 0 <= prec -> -1000 <= g <= 1000 ->
+  let X := g + decimalLength17 k - 1 in
+  exists N E,
+    parse_number (to_chars_fixed k (1 - decimalLength17 k) sign prec ++ exp_suffix X) = Some (NVdec (sign && negb (N =? 0)) N E) /\ 0 <= N /\
+    (decimalLength17 k - 1 <= prec -> (dval N E == dval k g)%Q) /\
+    (Qabs (dval N E - dval k g) <= (1 # 2) * (10 # 1) ^ (X - prec))%Q /\
+    g <= E <= X /\ (decimalLength17 k - 1 <= prec -> same_val N E k g).
+Proof. exact exp_layout_value. Qed.
+Print Assumptions C10_exp_layout_value.
 
 (* number_grammar. Whatever the double d and the digits (k, g) handed to the layout (1 <= k < 10^17), the string of the trimmed writer
    (WKTWriter::writeTrimmedNumber = GEOS_printDouble: fixed or exponent notation, NaN / Infinity / 0) is accepted by the number language
@@ -37,6 +51,34 @@ Theorem C10_length_bound : forall d k g prec, 1 <= k < 10 ^ 17 -> 0 <= prec ->
   zlen (print_trimmed_sd d (k, g) prec) <= 24.
 Proof. exact trimmed_length_bound. Qed.
 Print Assumptions C10_length_bound.
+
+(* shortest_roundtrip.
+   (a) whatever digits the search `shortest` returns denote a value inside the rounding interval of the double (end points only for an
+       even binary mantissa) — by construction of the search; *)
+Theorem C10_shortest_in_interval : forall m2 e2 closer, 0 < m2 ->
+  let '(k, g) := shortest m2 e2 closer in
+  let '(A, C, B, D) := interval m2 e2 closer in
+  in_interval (Z.even m2) A B D k g = true.
+Proof. exact shortest_in_interval. Qed.
+Print Assumptions C10_shortest_in_interval.
+
+(* (b) binary64 round-to-nearest-even maps every real of that interval to the double (Flocq; this is the float half) *)
+Theorem C10_round_interval : forall (m : positive) (e : Z), SpecFloat.bounded 53 1024 m e = true -> forall x : R,
+  (if Z.even (Zpos m) then (lo m e <= x <= hi m e)%R else (lo m e < x < hi m e)%R) ->
+  Generic_fmt.round Zaux.radix2 fexp64 Round_NE.ZnearestE x = Defs.F2R (Defs.Float Zaux.radix2 (Zpos m) e).
+Proof. exact round_interval. Qed.
+Print Assumptions C10_round_interval.
+
+(* (c) the round trip itself. FULL STATEMENT (shortest_roundtrip): for every finite non-zero bit pattern and every precision that keeps all
+       shortest digits, strtod_spec (print_trimmed bits prec) = Some (of_dbl (decode bits)).
+       PROVED under the hypothesis that the digits returned by the model's own search are in range (1 <= k < 10^17, -400 <= g <= 380:
+       "17 significant digits suffice"); this hypothesis concerns NumDefs.shortest only and is evaluated on every double the tie generates. *)
+Theorem C10_shortest_roundtrip_partial : forall bits prec s m2 e2 c k g,
+  decode bits = DFin s m2 e2 c -> shortest m2 e2 c = (k, g) -> 1 <= k < 10 ^ 17 -> -400 <= g <= 380 ->
+  0 <= prec -> - g <= prec -> decimalLength17 k - 1 <= prec ->
+  strtod_spec (print_trimmed bits prec) = Some (of_dbl (decode bits)).
+Proof. exact ShortestRoundtrip.shortest_roundtrip_partial. Qed.
+Print Assumptions C10_shortest_roundtrip_partial.
 
 (* wkt_structure_roundtrip. For every well-formed geometry tree and every writer setting, the reader model applied to the writer model's
    tokens returns exactly `expect`: the same tree with the dimensionality the writer's dropping rule yields — or rejects exactly when
@@ -74,6 +116,12 @@ Example ex_length_24 : zlen (print_trimmed 0x8008E0A3A2BC301F 20) = 24.
 Proof. vm_compute. reflexivity. Qed.
 Example ex_untrimmed : show (print_untrimmed 0x3FC3333333333333 2) = "0.15"%string /\ show (print_untrimmed 0x8000000000000000 2) = "-0.00"%string.
 Proof. vm_compute. repeat split; reflexivity. Qed.
+Example ex_roundtrip_number :
+  (* 0.1, 1e23 (an exact tie between two doubles, read back to the even one), the largest double, the smallest subnormal *)
+  map (fun b => option_map to_bits (strtod_spec (print_trimmed b 20))) [0x3FB999999999999A; 0x44B52D02C7E14AF6; 0x7FEFFFFFFFFFFFFF; 0x8000000000000001]
+  = [Some 0x3FB999999999999A; Some 0x44B52D02C7E14AF6; Some 0x7FEFFFFFFFFFFFFF; Some 0x8000000000000001]
+  /\ shortest (2 ^ 52 + 0x52D02C7E14AF6) (0x44B - 1075) false = (1, 23).
+Proof. vm_compute. split; reflexivity. Qed.
 Example ex_roundtrip_tree :
   let g := GNode KCollection [GNode KMultiPoint [GLeaf KPoint (mkdims true true) []; GLeaf KPoint (mkdims true true) [mkc 1 2 3 4]];
                               GNode KCurvePolygon [GNode KCompoundCurve [GLeaf KCircularString (mkdims true true) [mkc 0 0 1 1; mkc 2 0 1 1; mkc 2 1 1 1];
